@@ -423,7 +423,8 @@ def run(ctx):
         check_delegate(ctx, rp, q)
     for rp, q in (('core/_files.py', 'PseudoNetCDFFile.stack'), ('core/_functions.py', 'stack_files')):
         check_forelse(ctx, rp, q)
-    ctx.floor('for/else loops in the multi-file helpers', n, 2)
+    # a prohibition (no for/else whose loop cannot break): it needs no instance - a helper without any for/else satisfies it
+    ctx.count('for/else loops in the multi-file helpers', n)
     # ---- R-PASSMASK: variables the string forms pass through keep their mask
     from .. import lints as _lp
     ctx.rule('R-PASSMASK', 'variables that an operation passes through unchanged keep their mask: the converter copy does not fill an in-memory masked target')
